@@ -674,37 +674,34 @@ func without(hist []opT, k string) []opT {
 	return out
 }
 
-// historyClass classifies the lineage of one copy for the fairness verdict (§6.2).
+// historyClass classifies the lineage of one copy for the fairness verdict
+// (DESIGN §6.2) by the strongest reason it gives for accums to be off the
+// periodic orbit: a Remove or Update (accum sum no longer zero / powers changed
+// under existing accums), else a batched increment (see R2), else an Add (new
+// member enters with accum 0, sum stays zero), else nothing.
 func historyClass(lin []opT) string {
-	muts := map[string]bool{}
-	batched := false
+	remupd, batched, add := false, false, false
 	for _, o := range lin {
 		switch o.K {
-		case "add", "upd", "rem":
-			muts[o.K] = true
-		case "adddup":
-			muts["add-existing"] = true
+		case "upd", "rem":
+			remupd = true
+		case "add", "adddup":
+			add = true
 		case "inc":
 			if o.A > 1 {
 				batched = true
 			}
 		}
 	}
-	if len(muts) == 0 {
-		if batched {
-			return "no-mutation-but-batched-increments"
-		}
-		return "no-mutation-single-increments"
+	switch {
+	case remupd:
+		return "after-remove-or-update"
+	case batched:
+		return "after-batched-increment"
+	case add:
+		return "after-add-only"
 	}
-	ks := make([]string, 0, len(muts))
-	for k := range muts {
-		ks = append(ks, k)
-	}
-	sort.Strings(ks)
-	if batched {
-		ks = append(ks, "batched-increments")
-	}
-	return "after-" + strings.Join(ks, "+")
+	return "no-mutation-single-increments"
 }
 
 func lastKind(lin []opT) string {
